@@ -212,14 +212,20 @@ impl Backend {
                 linter: LintGroup::new_curated(dict.clone(), dialect)
                     .with_lint_config(lint_config.clone()),
                 language_id: language_id.map(|v| v.to_string()),
+                base_dict: dict.clone(),
                 dict: dict.clone(),
                 url: url.clone(),
                 ..Default::default()
             }
         });
 
-        if doc_state.dict != dict {
+        // `doc_state.dict` may have the document's identifiers merged in, so it cannot tell
+        // whether the file dictionary changed.
+        if doc_state.base_dict != dict {
+            doc_state.base_dict = dict.clone();
             doc_state.dict = dict.clone();
+            // The identifiers have to be merged into the new dictionary again.
+            doc_state.ident_dict = Default::default();
             info!("Constructing new linter because of modified dictionary.");
             doc_state.linter =
                 LintGroup::new_curated(dict.clone(), dialect).with_lint_config(lint_config.clone());
